@@ -162,12 +162,14 @@ def opacity_selection(ctx, nn, nr, ktable, native_points=False):
                 alts.append(ctx.and_(ctx.le(native[j], req[i]), ctx.le(req[i], native[j + 1]), _btw(ctx, v, c(j), c(j + 1))))
             ctx.goal('between_neighbours[%d,%s]' % (i, g), ctx.or_(alts))
             if 0 < i < nr - 1:
-                # an interior requested point does not depend on which other points were requested: it is the linear
-                # interpolant of its two neighbouring native values (both are inside the selected range)
-                exact = [ctx.and_(ctx.le(native[j], req[i]), ctx.le(req[i], native[j + 1]), ctx.ne(native[j], native[j + 1]),
-                                  ctx.eq(v, c(j) + (c(j + 1) - c(j)) * (req[i] - native[j]) / (native[j + 1] - native[j])))
-                         for j in range(nn - 1)]
-                ctx.goal('interior_is_interpolant[%d,%s]' % (i, g), ctx.or_(exact))
+                # a requested point lying strictly between two native points that are BOTH inside the requested range does
+                # not depend on which other points were requested: it is their linear interpolant.  (Points next to the
+                # ends of the range, whose outer neighbour is not selected, are clamped -- see the recorded finding.)
+                for j in range(nn - 1):
+                    inside = ctx.and_(ctx.lt(native[j], req[i]), ctx.lt(req[i], native[j + 1]),
+                                      ctx.le(req[0], native[j]), ctx.le(native[j + 1], req[nr - 1]))
+                    ctx.goal('interior_is_interpolant[%d,%s,%d]' % (i, g, j), ctx.implies(
+                        inside, ctx.eq(v, c(j) + (c(j + 1) - c(j)) * (req[i] - native[j]) / (native[j + 1] - native[j]))))
 
 
 def _btw(ctx, v, a, b):
